@@ -8,7 +8,10 @@ props=("$@"); [ ${#props[@]} -eq 0 ] && props=($(seq -f "C%02g" 1 20))
 cd /repo
 if [ -n "$(git status --porcelain --untracked-files=no)" ]; then echo "/repo not clean"; exit 3; fi
 git apply "$patch" || { echo "patch does not apply"; exit 3; }
-trap 'git -C /repo checkout -- . ; git -C /repo clean -fdq -e target' EXIT
+# evidence files and replays written while /repo is patched are not evidence: keep the ones of the
+# unchanged tree aside and put them back afterwards
+bak=$(mktemp -d /verif/build/evidence-keep.XXXXXX); cp -a /verif/evidence/. "$bak"/
+trap 'git -C /repo checkout -- . ; git -C /repo clean -fdq -e target; rm -rf /verif/evidence; mkdir -p /verif/evidence; cp -a "$bak"/. /verif/evidence/; rm -rf "$bak" /verif/replays' EXIT
 suite=$(cargo test --workspace --offline 2>&1 | grep -E "^test result" | tr '\n' ' ')
 echo "suite: $suite"
 cd /verif
